@@ -130,6 +130,22 @@ Theorem C03_double_to_single : forall hard d, buf_ok Double_consts d -> f_exp d 
 Proof. exact v_csng_double_spec. Qed.
 Print Assumptions C03_double_to_single.
 
+(* value-level error bound: the single returned for ANY double (no Overflow) differs from the double's exact
+   value by at most (1/2 + 1/256) ulp of a single at the double's exponent (ulp = 2^32 * 2^e on the 2^184 scale) *)
+Theorem C03_double_to_single_error : forall d s, buf_ok Double_consts d ->
+  v_csng true (VDbl d) = Ok (VSng s) ->
+  256 * Z.abs (value_scaled (VSng s) - value_scaled (VDbl d)) <= 129 * (2 ^ 32 * 2 ^ f_exp d).
+Proof. exact v_csng_error_bound. Qed.
+Print Assumptions C03_double_to_single_error.
+
+(* widening then narrowing is the identity on bytes: CSNG(CDBL(s)) = s for every single s
+   (a zero encoding comes back as the canonical zero), in both error-handler modes *)
+Theorem C03_csng_cdbl_roundtrip : forall hard s, buf_ok Single_consts s ->
+  exists d, v_cdbl (VSng s) = Ok (VDbl d) /\
+    v_csng hard (VDbl d) = Ok (VSng (if f_exp s =? 0 then [0; 0; 0; 0] else s)).
+Proof. intros hard s Hs. exists (d_from_single s). split; [reflexivity | exact (csng_cdbl_roundtrip hard s Hs)]. Qed.
+Print Assumptions C03_csng_cdbl_roundtrip.
+
 (* a zero double (any encoding with exponent byte 0) converts to the canonical zero single *)
 Theorem C03_double_zero_to_single : forall hard d, buf_ok Double_consts d -> f_exp d = 0 ->
   v_csng hard (VDbl d) = Ok (VSng [0; 0; 0; 0]).
